@@ -34,7 +34,7 @@ def isiterable(x):
     try:
         iter(x)
         return True
-    except TypeError: return False
+    except Exception: return False # (e.g. ValueError for a closed file)
    #return hasattr(x, '__len__') or hasattr(x, '__iter__')
 
 def _b(message):
